@@ -372,6 +372,23 @@ def wind_rules(F, R):
            "do-wind no longer computes the common tail of the target list and the current winders list: thunks of "
            "extents shared by both are run although control never leaves them", where(do), sample=True)
 
+    # ---- (2b) the winders lists are compared by structure: steel lists have no identity that survives cons / cdr
+    ident_cmp = []
+    for owner, d_ in (("common-tail", defs.get("common-tail")), ("do-wind", do)):
+        if d_ is None:
+            continue
+        for f in sexp.walk(d_):
+            if (sexp.is_form(f, "eq?") or sexp.is_form(f, "eqv?")) and len(f) == 3:
+                ident_cmp.append((owner, f))
+    struct_cmp = [f for d_ in (defs.get("common-tail"), do) if d_ is not None for f in sexp.walk(d_) if sexp.is_form(f, "equal?")]
+    R.inst("C08.w", "common-tail / do-wind compare winders lists with equal?, never by identity",
+           not ident_cmp and len(struct_cmp) >= 3,
+           "%s compares winders lists by identity (%s): a steel list has no identity that survives cons / cdr, so two lists "
+           "that share a tail are never eq? — common-tail always answers '() and do-wind leaves and re-enters every active "
+           "extent, running after / before thunks of extents control never left" % (
+               ident_cmp[0][0] if ident_cmp else "the wind machinery", sexp.show(ident_cmp[0][1]) if ident_cmp else "no equal? left"),
+           where(ident_cmp[0][1]) if ident_cmp else where(do), sample=True)
+
     # ---- (3) call/cc wrapper
     cc = defs["call/cc"]
     found = False
@@ -394,7 +411,7 @@ def wind_rules(F, R):
            "the call/cc wrapper no longer saves (get-tls winders) when the continuation is captured and calls (do-wind save) "
            "before invoking the raw continuation: escaping from or re-entering a dynamic-wind extent through a "
            "continuation runs no thunks", where(cc), sample=True)
-    R.floor("C08.w", "dynamic-wind protocol instances", 9, 9)
+    R.floor("C08.w", "dynamic-wind protocol instances", 10, 10)
 
 
 BULK = r"Vec<T,A>\}::(clear|truncate|drain|retain|retain_mut|split_off|set_len|dedup_by|resize|resize_with)$"
